@@ -410,3 +410,13 @@ RULES = [
     ("C11.f", "ModelId = index of the pushed name", rule_f),
     ("C11.g", "SendError surfaced in ports", rule_g),
 ]
+
+
+def rule_senders(ctx):
+    """NoRecipient can only be reported if the send to the dropped mailbox is actually attempted: every sender produces its send future
+    unless its filter returned None (C03.b)."""
+    from . import c03
+    c03.rule_b(ctx)
+
+
+RULES.append(("C11.h", "a send is always attempted (the SendError of a dropped mailbox cannot be skipped by a sender)", rule_senders))
